@@ -36,7 +36,7 @@ CHECK, MANIFEST = srvgen.make_check(
      "whose Loaded entries are zones built by Zone::new + Zone::add over arbitrary record lists (RDATA <= 65535 octets, 16-bit "
      "types: what the Rust types enforce). Covered: the Reader, compressed-name parsing, OPT/TSIG RDATA validation, the complete "
      "pre-scan with the Writer's size arithmetic, the opcode/QTYPE/catalog dispatch (first wave, c01_no_panic_partial), and now, "
-     "for a clean QUERY in a Loaded zone, ALL of query answering at the octet level: every zone lookup of the tree model (C06), "
+     "for a clean QUERY without TSIG — answered from a Loaded zone, or with NOTIMP/REFUSED/SERVFAIL — ALL of the response side at the octet level: every zone lookup of the tree model (C06), "
      "every RDATA name parse, the CNAME chase with PreviousOwners, referrals and glue, additional-section processing, the error "
      "mapping, and every Writer operation issued (add_*_rr / add_*_rrset with Hint::Qname / MostRecentOwner / "
      "MostRecentNameInRdata / hint-pointer-vector slots, clear_rrs, set_aa/rcode/tc, rollbacks) up to and including finish — by "
@@ -58,3 +58,35 @@ MANIFEST["level_note"] = (
 CHECK["assumptions"] = CHECK["assumptions"] + [
     "every Loaded catalog entry is a zone built by Zone::new + Zone::add (any record list: RDATA <= 65535 octets < 256, 16-bit "
     "types; the apex a valid Name of the entry's class; Rdata::equals transitive)"]
+
+
+# ---- second suite: the extracted COMPOSED model (Model/ServerW.v handle_message_w — the very function c01_no_panic and
+# c02_wellformed are about) against the real server, raw octets included wherever the model produces octets
+def _raw(line):
+    for tok in line.split():
+        if tok.startswith("raw="):
+            return tok[4:]
+    return None
+
+
+def corr_eq_w(case, impl, model):
+    if not srvgen.resp_equal(impl, model):
+        return False
+    rm = _raw(model)
+    return rm is None or rm == _raw(impl)
+
+
+def gen_w(rng, tier):
+    quick = tier == "quick"
+    for _ in range(5000 if quick else 150000):
+        yield srvgen.gen_case(rng, loaded=True, mutate_p=0.3, clean_p=0.5)
+
+
+def nontrivial_w(case, impl, model, oracle):
+    return _raw(model) is not None          # the composed model answered in octets
+
+
+CHECK["suites"].append(dict(CHECK["suites"][0], name="srvw", extract="Extract/ExSrvW.v", driver="run_srvw.ml",
+                            runner_name="SRVW", gen=gen_w, nontrivial=nontrivial_w, corr_eq=corr_eq_w,
+                            rule=("the extracted composed model handle_message_w itself (no composition in the runner); every response "
+                                  "it produces in octets must equal the real server's octet for octet")))
